@@ -197,7 +197,11 @@ void vf_case(Ctx& ctx, uint64_t i) {
   c.seti("cbmode", r.irange(0, 3)); c.seti("zseed", (long long)(r.next() >> 2)); c.seti("gp", 0);
   if (fam <= 2) {
     static const int mags[] = { 7, 10, 20, 30, 40, 52 };
-    gen::Scene sc = gen::gp_scene(r, g_gc, fam == 2 ? std::min(mags[r.irange(0, 5)], 40) : mags[r.irange(0, 5)]);
+    gen::Scene sc;
+    // a third of the Clipper64 cases: dense-scanline flat scenes with one crossing a hair past a scanline (the sweep's
+    // intersection-repair branches build the new vertex from other points there - where a Z can leak from)
+    if (fam <= 1 && r.chance(0.35) && gen::flat_scene(r, g_gc, sc)) { ++g_gc.flat; gen::g_nudge_attempts = 200; if (gen::nudge_crossing_past_scanline(r, sc)) { ++g_gc.tie; if (r.coin()) c.seti("cbmode", 0); } gen::g_nudge_attempts = 48; }
+    else sc = gen::gp_scene(r, g_gc, fam == 2 ? std::min(mags[r.irange(0, 5)], 40) : mags[r.irange(0, 5)]);
     if (!sc.ok) { ctx.count("gp_gave_up"); return; }
     c.p64["S"] = sc.subj; c.p64["C"] = sc.clip; c.seti("gp", 1);
     if (fam >= 1) {   // open subjects in general position w.r.t. the closed paths: simple rejection on vertex distance
@@ -243,4 +247,4 @@ void vf_case(Ctx& ctx, uint64_t i) {
   judge(ctx, c, false);
 }
 void vf_replay(Ctx& ctx, const Case& c) { judge(ctx, c, true); }
-void vf_end(Ctx& ctx) { ctx.count("gp_candidates_rejected", g_gc.rejected); }
+void vf_end(Ctx& ctx) { ctx.count("gp_candidates_rejected", g_gc.rejected); ctx.count("gp_flat_dense_scanline_scenes", g_gc.flat); ctx.count("gp_scenes_with_crossing_a_hair_past_a_scanline", g_gc.tie); }
